@@ -104,6 +104,112 @@ theorem checkString_ok_inv {a : SArg} {p : Str} (h : checkString a = .ok p) :
   rename_i s
   split at h <;> simp_all
 
+/-- the effect of `delete_object(p)` on a bound pid, from a store whose indexes agree -/
+theorem delete_effect (st : Store) (log : List Eff) (q c : Str) (h : RefsExact o st) (hpl : PlainIds o)
+    (hinj : ∀ r, o.hId r = o.hId q → r = q) (hp : checkStringOk q = true)
+    (h1 : st.pidRefs.get (o.hId q) = some c) :
+    ∃ ls w', st.cidRefs.get c = some (renderLines ls) ∧ (∀ l ∈ ls, hasSpace l = false) ∧ q ∈ ls ∧
+      (deleteObject cfg o (.str q)).run (calm st log) = (.ok .unit, w') ∧
+      w'.lk = {} ∧ w'.fault = none ∧ w'.st.tmpRefs = st.tmpRefs ∧ w'.st.tmpObj = st.tmpObj ∧
+      (∀ j, w'.st.pidRefs.get j = if o.hId q = j then none else st.pidRefs.get j) ∧
+      (∀ j, w'.st.cidRefs.get j =
+        if c = j then (if ls.filter (fun l => !decide (l = q)) = [] then none
+                       else some (renderLines (ls.filter fun l => !decide (l = q))))
+        else st.cidRefs.get j) ∧
+      (∀ j, w'.st.objs.get j =
+        if c = j ∧ ls.filter (fun l => !decide (l = q)) = [] then none else st.objs.get j) := by
+  obtain ⟨q', hq, _, t, h2, hin⟩ := h.pid_listed _ _ h1
+  have hqp : q' = q := hinj q' hq.symm
+  subst hqp
+  obtain ⟨ls, hls, _, _, hall⟩ := h.list_ok c t h2
+  subst hls
+  have hsp : ∀ l ∈ ls, hasSpace l = false := fun l hl => nospace_of_ok (hall l hl).1
+  have hmem : q' ∈ ls := by
+    rw [inRefs_render q' ls hsp] at hin; simpa using hin
+  have hkm : st.pidRefs.get (o.hId q' ++ deleteSuffix) = none := by
+    cases hx : st.pidRefs.get (o.hId q' ++ deleteSuffix) with
+    | none => rfl
+    | some y =>
+      obtain ⟨r, hr, _⟩ := h.pid_listed _ _ hx
+      exact absurd (hr ▸ hpl r) (not_plain_marker _)
+  have hcm : st.cidRefs.get (c ++ deleteSuffix) = none := by
+    cases hx : st.cidRefs.get (c ++ deleteSuffix) with
+    | none => rfl
+    | some y => exact absurd (h.cid_plain _ _ hx) (not_plain_marker _)
+  have hom : st.objs.get (c ++ deleteSuffix) = none := by
+    cases hx : st.objs.get (c ++ deleteSuffix) with
+    | none => rfl
+    | some y => exact absurd (h.obj_plain _ _ hx) (not_plain_marker _)
+  have hpid : ∀ j, (((st.pidRefs.del (o.hId q')).set (o.hId q' ++ deleteSuffix) c).del
+      (o.hId q' ++ deleteSuffix)).get j = if o.hId q' = j then none else st.pidRefs.get j := by
+    intro j
+    rw [FMap.get_retire_remove]
+    split
+    · rename_i e; subst e; rw [hkm]; split <;> rfl
+    · rfl
+  have hcl : ∀ j, ((((((st.cidRefs.set c (overwritePrefix [] (renderLines ls))).set c []).del c).set
+      (c ++ deleteSuffix) [])).del (c ++ deleteSuffix)).get j = if c = j then none else st.cidRefs.get j := by
+    intro j
+    rw [FMap.get_retire_remove]
+    split
+    · rename_i e; subst e; rw [hcm]; split <;> rfl
+    · split
+      · rfl
+      · rename_i e; rw [FMap.get_set_ne _ _ e, FMap.get_set_ne _ _ e]
+  refine ⟨ls, ?_⟩
+  by_cases hrest : ls.filter (fun l => !decide (l = q')) = []
+  · cases hobj : st.objs.get c with
+    | some x =>
+      obtain ⟨w', hrun, hlk, hnf, htr, hto, hob, hpr, hcr⟩ :=
+        delete_main_last cfg o st log q' c ls x hp h1 h2 hsp hmem hobj hrest
+      refine ⟨w', h2, hsp, hmem, hrun, hlk, hnf, htr, hto, ?_, ?_, ?_⟩
+      · intro j; rw [hpr]; exact hpid j
+      · intro j; rw [hcr, hcl j, hrest]; simp
+      · intro j
+        rw [hob, FMap.get_retire_remove]
+        by_cases e1 : c ++ deleteSuffix = j
+        · subst e1
+          have : ¬ (c = c ++ deleteSuffix) := by
+            intro e; have := congrArg List.length e; simp [deleteSuffix] at this
+          simp [this, hom]
+        · by_cases e2 : c = j
+          · simp [e1, e2, hrest]
+          · simp [e1, e2]
+    | none =>
+      obtain ⟨w', hrun, hlk, hnf, htr, hto, hob, hpr, hcr⟩ :=
+        delete_missing_last cfg o st log q' c ls hp h1 h2 hsp hmem hobj hrest
+      refine ⟨w', h2, hsp, hmem, hrun, hlk, hnf, htr, hto, ?_, ?_, ?_⟩
+      · intro j; rw [hpr]; exact hpid j
+      · intro j; rw [hcr, hcl j, hrest]; simp
+      · intro j
+        rw [hob]
+        by_cases e2 : c = j
+        · subst e2; simp [hrest, hobj]
+        · simp [e2]
+  · have hck : ∀ j, ((st.cidRefs.set c (overwritePrefix (renderLines (ls.filter fun l => !decide (l = q')))
+        (renderLines ls))).set c (renderLines (ls.filter fun l => !decide (l = q')))).get j =
+        if c = j then some (renderLines (ls.filter fun l => !decide (l = q'))) else st.cidRefs.get j := by
+      intro j
+      rw [FMap.get_set]
+      split
+      · rfl
+      · rename_i e; rw [FMap.get_set_ne _ _ e]
+    cases hobj : st.objs.get c with
+    | some x =>
+      obtain ⟨w', hrun, hlk, hnf, htr, hto, hob, hpr, hcr⟩ :=
+        delete_main_keep cfg o st log q' c ls x hp h1 h2 hsp hmem hobj hrest
+      refine ⟨w', h2, hsp, hmem, hrun, hlk, hnf, htr, hto, ?_, ?_, ?_⟩
+      · intro j; rw [hpr]; exact hpid j
+      · intro j; rw [hcr, hck j, if_neg hrest]
+      · intro j; rw [hob]; simp [hrest]
+    | none =>
+      obtain ⟨w', hrun, hlk, hnf, htr, hto, hob, hpr, hcr⟩ :=
+        delete_missing_keep cfg o st log q' c ls hp h1 h2 hsp hmem hobj hrest
+      refine ⟨w', h2, hsp, hmem, hrun, hlk, hnf, htr, hto, ?_, ?_, ?_⟩
+      · intro j; rw [hpr]; exact hpid j
+      · intro j; rw [hcr, hck j, if_neg hrest]
+      · intro j; rw [hob]; simp [hrest]
+
 /-- `delete_object` (any argument) preserves the two-index invariant; with a
     collision-free identifier hash at this pid -/
 theorem delete_exact (st : Store) (log : List Eff) (pid : SArg) (h : RefsExact o st) (hpl : PlainIds o)
@@ -120,92 +226,14 @@ theorem delete_exact (st : Store) (log : List Eff) (pid : SArg) (h : RefsExact o
     cases h1 : st.pidRefs.get (o.hId p) with
     | none => rw [delete_unknown cfg o st log p hp h1]; exact h
     | some c =>
-      obtain ⟨q, hq, _, t, h2, hin⟩ := h.pid_listed _ _ h1
-      have hqp : q = p := hinj p q rfl hq.symm
-      subst hqp
-      obtain ⟨ls, hls, _, _, hall⟩ := h.list_ok c t h2
-      subst hls
-      have hsp : ∀ l ∈ ls, hasSpace l = false := fun l hl => nospace_of_ok (hall l hl).1
-      have hmem : q ∈ ls := by
-        rw [inRefs_render q ls hsp] at hin; simpa using hin
-      have hkm : st.pidRefs.get (o.hId q ++ deleteSuffix) = none := by
-        cases hx : st.pidRefs.get (o.hId q ++ deleteSuffix) with
-        | none => rfl
-        | some y =>
-          obtain ⟨r, hr, _⟩ := h.pid_listed _ _ hx
-          exact absurd (hr ▸ hpl r) (not_plain_marker _)
-      have hcm : st.cidRefs.get (c ++ deleteSuffix) = none := by
-        cases hx : st.cidRefs.get (c ++ deleteSuffix) with
-        | none => rfl
-        | some y => exact absurd (h.cid_plain _ _ hx) (not_plain_marker _)
-      have hom : st.objs.get (c ++ deleteSuffix) = none := by
-        cases hx : st.objs.get (c ++ deleteSuffix) with
-        | none => rfl
-        | some y => exact absurd (h.obj_plain _ _ hx) (not_plain_marker _)
-      have hpid : ∀ j, (((st.pidRefs.del (o.hId q)).set (o.hId q ++ deleteSuffix) c).del
-          (o.hId q ++ deleteSuffix)).get j = if o.hId q = j then none else st.pidRefs.get j := by
-        intro j
-        rw [FMap.get_retire_remove]
-        split
-        · rename_i e; subst e; rw [hkm]; split <;> rfl
-        · rfl
-      have hcl : ∀ j, ((((((st.cidRefs.set c (overwritePrefix [] (renderLines ls))).set c []).del c).set
-          (c ++ deleteSuffix) [])).del (c ++ deleteSuffix)).get j = if c = j then none else st.cidRefs.get j := by
-        intro j
-        rw [FMap.get_retire_remove]
-        split
-        · rename_i e; subst e; rw [hcm]; split <;> rfl
-        · split
-          · rfl
-          · rename_i e; rw [FMap.get_set_ne _ _ e, FMap.get_set_ne _ _ e]
-      by_cases hrest : ls.filter (fun l => !decide (l = q)) = []
-      · cases hobj : st.objs.get c with
-        | some x =>
-          obtain ⟨w', hrun, _, _, htr, hto, hob, hpr, hcr⟩ :=
-            delete_main_last cfg o st log q c ls x hp h1 h2 hsp hmem hobj hrest
-          rw [hrun]
-          refine exact_delete_core o st w'.st q c ls h (fun r => hinj q r rfl) h1 h2 hsp ?_ ?_ ?_ ⟨htr, hto⟩
-          · intro j; rw [hpr]; exact hpid j
-          · intro j; rw [hcr, hcl j, hrest]; simp
-          · intro j y hy
-            rw [hob, FMap.get_retire_remove] at hy
-            split at hy
-            · cases hy
-            · split at hy
-              · cases hy
-              · exact hy
-        | none =>
-          obtain ⟨w', hrun, _, _, htr, hto, hob, hpr, hcr⟩ :=
-            delete_missing_last cfg o st log q c ls hp h1 h2 hsp hmem hobj hrest
-          rw [hrun]
-          refine exact_delete_core o st w'.st q c ls h (fun r => hinj q r rfl) h1 h2 hsp ?_ ?_ ?_ ⟨htr, hto⟩
-          · intro j; rw [hpr]; exact hpid j
-          · intro j; rw [hcr, hcl j, hrest]; simp
-          · intro j y hy; rw [hob] at hy; exact hy
-      · have hck : ∀ j, ((st.cidRefs.set c (overwritePrefix (renderLines (ls.filter fun l => !decide (l = q)))
-            (renderLines ls))).set c (renderLines (ls.filter fun l => !decide (l = q)))).get j =
-            if c = j then some (renderLines (ls.filter fun l => !decide (l = q))) else st.cidRefs.get j := by
-          intro j
-          rw [FMap.get_set]
-          split
-          · rfl
-          · rename_i e; rw [FMap.get_set_ne _ _ e]
-        cases hobj : st.objs.get c with
-        | some x =>
-          obtain ⟨w', hrun, _, _, htr, hto, hob, hpr, hcr⟩ :=
-            delete_main_keep cfg o st log q c ls x hp h1 h2 hsp hmem hobj hrest
-          rw [hrun]
-          refine exact_delete_core o st w'.st q c ls h (fun r => hinj q r rfl) h1 h2 hsp ?_ ?_ ?_ ⟨htr, hto⟩
-          · intro j; rw [hpr]; exact hpid j
-          · intro j; rw [hcr, hck j, if_neg hrest]
-          · intro j y hy; rw [hob] at hy; exact hy
-        | none =>
-          obtain ⟨w', hrun, _, _, htr, hto, hob, hpr, hcr⟩ :=
-            delete_missing_keep cfg o st log q c ls hp h1 h2 hsp hmem hobj hrest
-          rw [hrun]
-          refine exact_delete_core o st w'.st q c ls h (fun r => hinj q r rfl) h1 h2 hsp ?_ ?_ ?_ ⟨htr, hto⟩
-          · intro j; rw [hpr]; exact hpid j
-          · intro j; rw [hcr, hck j, if_neg hrest]
-          · intro j y hy; rw [hob] at hy; exact hy
+      obtain ⟨ls, w', h2, hsp, _, hrun, _, _, htr, hto, hpid, hcid, hobj⟩ :=
+        delete_effect o cfg st log p c h hpl (fun r => hinj p r rfl) hp h1
+      rw [hrun]
+      refine exact_delete_core o st w'.st p c ls h (fun r => hinj p r rfl) h1 h2 hsp hpid hcid ?_ ⟨htr, hto⟩
+      intro j y hy
+      rw [hobj] at hy
+      split at hy
+      · cases hy
+      · exact hy
 
 end HS
